@@ -11,6 +11,7 @@ from .astx import FUNC_NODES, unparse
 
 REPO_ROOT = os.environ.get('AIOSLSK_REPO', '/repo')
 PKG_DIR = 'src/aioslsk'
+KNOWN_CONSTS = os.path.join(os.path.dirname(os.path.dirname(os.path.abspath(__file__))), 'tables', 'known_constants.json')
 KNOWN_FUNCS = os.path.join(os.path.dirname(os.path.dirname(os.path.abspath(__file__))), 'tables', 'known_functions.json')
 
 
@@ -137,8 +138,10 @@ class Repo:
         # normalisation: `match` statements become the if/elif chains they abbreviate (see sa/desugar.py)
         from .desugar import desugar
         if os.environ.get('AIOSLSK_VERIF_NO_DESUGAR') != '1':
+            from .normalise import before_inliner
             for m in mods:
                 desugar(m.tree)
+                before_inliner(m.tree)
         # normalisation: inline helpers the rule set has never seen (see sa/inline.py)
         self.inline_log: list[str] = []
         self.known_funcs: set[str] = set()
@@ -150,6 +153,9 @@ class Repo:
             inl = Inliner({m.rel: m.tree for m in mods}, known)
             inl.run()
             self.inline_log = inl.log
+            from .normalise import after_inliner
+            with open(KNOWN_CONSTS) as fh:
+                self.inline_log += after_inliner({m.rel: m.tree for m in mods}, set(json.load(fh)['constants']))
         for mod in mods:
             self._index_module(mod)
         self.digest = h.hexdigest()
